@@ -6,7 +6,7 @@ import pvtools
 import procoracle as po
 
 FAMILIES = ['solver', 'process', 'curve', 'membrane']
-BRIDGES = ['br_permcomp_', 'br_sepfactor_', 'br_idealcurve_', 'br_proc_', 'br_nonideal_', 'br_metric_', 'br_pm_', 'br_perm_', 'br_solve_it1_membrane']
+BRIDGES = ['br_flux_', 'br_permcomp_', 'br_sepfactor_', 'br_idealcurve_', 'br_proc_', 'br_nonideal_', 'br_metric_', 'br_pm_', 'br_perm_', 'br_solve_it1_membrane']
 PROPS_V = 'Props/C08.v'
 EXTRA_TARGETS = ['Model/NumCheck.vo']
 BUDGET = {'quick': 120, 'thorough': 3000}
@@ -36,7 +36,17 @@ def oracle(rng, tier):
         T, Tp, pp, ct, prec = cfg['T0'], cfg['Tp'], cfg['pp'], cfg['ct'], cfg['prec']
         ok, detail = True, ''
         try:
-            std = pvo.calculate_partial_fluxes(T, x, prec, Tp, pp, calculation_type=ct)
+            cnt = pvtools.Counting(mem, m)
+            std = cnt.calculate_partial_fluxes(T, x, prec, Tp, pp, calculation_type=ct)
+            if Tp is not None:
+                # the selected model must be used on BOTH sides of the membrane
+                from pyvaporation.mixtures.mixture import get_partial_pressures
+                last = cnt.__dict__['last_kw']
+                pf = get_partial_pressures(T, m, x, ct)
+                pq = get_partial_pressures(Tp, m, last['permeate_composition'], ct)
+                e = (last['first_component_permeance'].value * (pf[0] - pq[0]), last['second_component_permeance'].value * (pf[1] - pq[1]))
+                if not (rel_close(std[0], e[0], 1e-9, 1e-12) and rel_close(std[1], e[1], 1e-9, 1e-12)):
+                    ok, detail = False, 'fluxes %r differ from permeance x (feed - permeate partial pressure) with the %s model on both sides: %r' % (std, ct, e)
             yc = pvo.calculate_permeate_composition(T, x, prec, Tp, pp, ct)
             ystd = std[0] / (std[0] + std[1])
             if not rel_close(yc.p, ystd, 1e-10):
